@@ -1,6 +1,7 @@
 import CotengraVerif.Driver.Util
 import CotengraVerif.Model.TreeState
 import CotengraVerif.Model.MaxCounter
+import CotengraVerif.Model.CostCache
 
 namespace Cotengra.Driver.C04
 open Lean Cotengra Cotengra.Driver
@@ -73,6 +74,63 @@ def mc : Handler := fun j => do
     | _ => throw "bad op"
   pure (jObj [("outs", jArr outs)])
 
-def handlers : List (String × Handler) := [("c04.run", run), ("c04.scratch", scratch), ("c04.mc", mc)]
+/-- all subtrees of a tree, children first, root last -/
+def subtrees : BT → List BT
+  | .leaf i => [.leaf i]
+  | .node l r => subtrees l ++ subtrees r ++ [.node l r]
+
+def optLegs (o : Option Legs) : Json := match o with | none => Json.null | some L => jPairs L
+def optNat (o : Option Nat) : Json := match o with | none => Json.null | some v => jNat v
+
+def jInfo (I : Info) (t : BT) : Json :=
+  jArr ((subtrees t).map fun s =>
+    let e := I.get s
+    jObj [("p", jNats s.leaves), ("legs", optLegs e.legs), ("involved", optLegs e.involved),
+          ("size", optNat e.size), ("flops", optNat e.flops)])
+
+/-- `c04.cache`: replay a sequence of lazy getter calls [[kind, k]] (k = position in the
+    children-first list of subtrees) on an empty cache; returns which fields are cached and their
+    values -/
+def cache : Handler := fun j => do
+  let n ← netOf (← field j "net")
+  let rm ← natList (← field j "rm")
+  let t ← btOf (← field j "tree")
+  let calls ← arrOf (← field j "calls")
+  let subs := subtrees t
+  let mut I : Info := []
+  for c in calls do
+    match ← arrOf c with
+    | [k, i] =>
+      let k ← k.getStr?
+      let i ← natOf i
+      match subs[i]? with
+      | none => throw "bad node position"
+      | some s =>
+        I := match k, s with
+          | "legs", s => (n.getLegs rm I s).1
+          | "size", s => (n.getSize rm I s).1
+          | "involved", .node l r => (n.getInvolved rm I l r).1
+          | "flops", .node l r => (n.getFlops rm I l r).1
+          | _, _ => I
+    | _ => throw "bad call"
+  pure (jObj [("info", jInfo I t)])
+
+/-- `c04.remove_cached`: for every internal node, populate (fillNode) from an empty cache under
+    `rm` and apply the `remove_ind` loop body for `ix` -/
+def removeCached : Handler := fun j => do
+  let n ← netOf (← field j "net")
+  let rm ← natList (← field j "rm")
+  let ix ← natOf (← field j "ix")
+  let t ← btOf (← field j "tree")
+  let rows := t.internal.filterMap fun s =>
+    match s with
+    | .node l r =>
+      let x := removeIndFull ix (n.size ix) (n.fillNode rm [] l r).2
+      some (jObj [("p", jNats s.leaves), ("legs", jPairs x.legs), ("involved", jPairs x.involved),
+                  ("size", jNat x.size), ("flops", jNat x.flops)])
+    | _ => none
+  pure (jObj [("nodes", jArr rows)])
+
+def handlers : List (String × Handler) := [("c04.cache", cache), ("c04.remove_cached", removeCached), ("c04.run", run), ("c04.scratch", scratch), ("c04.mc", mc)]
 
 end Cotengra.Driver.C04
